@@ -75,9 +75,10 @@ def build_pool(seed, tier):
             o2 = dict(o)
             o2["default_str_storage"] = 32 if o.get("default_str_storage", 32) != 32 else 80
             o2["output_dependencies"] = not o.get("output_dependencies", False)
-            o2.pop("string_configs", None)
-            if "string_configs" not in o:
-                o2["string_configs"] = {"A$": 10, "D$()": 64}
+            if r.random() < 0.5:
+                o2.pop("string_configs", None)
+                if "string_configs" not in o:
+                    o2["string_configs"] = {"A$": 10, "D$()": 64}
             o2.setdefault("procname", "prog")
             add({"t": "convert", "text": text, "opts": o2}, "gen%d/alt" % i,
                 basicgen.option_class(o2))
@@ -362,6 +363,8 @@ def process_environment(hashseed):
         "optimize": r.choice((0, 0, 0, 0, 0, 1, 2)),
         # warning filters of the tool process (python -W error turns every warning into an exception)
         "warnings": r.choice(("", "", "", "", "", "", "", "error")),
+        # python -bb: comparing or formatting bytes as str is an error
+        "bytes_warning": r.random() < 0.12,
         "cwd": r.choice(CWDS),
         "environ": {"TZ": r.choice(TZS), "USER": r.choice(("root", "alice", "bob")),
                     "LOGNAME": r.choice(("root", "alice")), "HOME": r.choice(("/root", "/home/alice", "/")),
@@ -391,6 +394,8 @@ def run_process(hashseed, ops, timeout=900, penv=None):
         opt = ["-" + "O" * int(penv.get("optimize", 0))] if penv.get("optimize") else []
         if penv.get("warnings"):
             opt += ["-W", penv["warnings"]]
+        if penv.get("bytes_warning"):
+            opt += ["-bb"]
         p = subprocess.run([PYTHON] + opt + [WORKER],
                            input=json.dumps({"ops": core, "penv": penv}), env=env,
                            capture_output=True, text=True, timeout=timeout, cwd=VERIF_DIR)
@@ -427,6 +432,7 @@ def _blame_environment(op, seed, pa, pb, ra):
         if comp == "optimize":
             mix["optimize"] = pb.get("optimize", 0)
             mix["warnings"] = pb.get("warnings", "")
+            mix["bytes_warning"] = pb.get("bytes_warning", False)
         elif comp == "clock":
             mix["epoch"], mix["tick"] = pb["epoch"], pb["tick"]
         elif comp == "TZ":
